@@ -21,15 +21,61 @@ type BigCase struct {
 	Form   string `json:"form"`   // "bytes": []byte; "wrapped": []struct{ []byte `maxlen:4294967295` } with one big and one small element (the general, non-byte slice path)
 	MaxLen uint64 `json:"maxlen"` // tag maxlen
 	MinLen uint64 `json:"minlen"`
-	Len    int    `json:"len"`   // content length in bytes
-	Chunk  Hex    `json:"chunk"` // 16 bytes, repeated (xor a counter) to Len
-	Lead   bool   `json:"lead"`  // a uint8 field before the vector (non-zero offset)
-	Tail   bool   `json:"tail"`  // a uint16 field behind it
+	Len    int    `json:"len"`             // content length in bytes
+	Chunk  Hex    `json:"chunk"`           // 16 bytes, repeated (xor a counter) to Len
+	Elem   string `json:"elem,omitempty"`  // form "many": element kind (u16 u24 u32 u64) or "a<N>" for [N]byte
+	Count  int    `json:"count,omitempty"` // form "many": number of elements
+	Lead   bool   `json:"lead"`            // a uint8 field before the vector (non-zero offset)
+	Tail   bool   `json:"tail"`            // a uint16 field behind it
 }
 
 const bigEdge = 1 << 24
 
+// genMany: a LONG vector of SMALL elements (tens to hundreds of thousands of entries): the cost per element must
+// stay constant, i.e. cumulative allocation (TotalAlloc) linear in the number of elements - growing the vector
+// by a fixed number of entries per reallocation is quadratic and shows here.
+func genMany(t *rapid.T) BigCase {
+	c := BigCase{Form: "many", Chunk: Hex(rapid.SliceOfN(rapid.Byte(), 16, 16).Draw(t, "chunk")),
+		Elem: pick(t, "elem", "u16", "u16", "u24", "u32", "u64", "a2", "a3", "a8"),
+		Lead: rapid.Bool().Draw(t, "lead"), Tail: rapid.Bool().Draw(t, "tail")}
+	w := manyElem(c.Elem).minWidth()
+	switch rapid.IntRange(0, 3).Draw(t, "scale") {
+	case 0: // a full two-byte prefix
+		c.MaxLen = 65535
+		c.Count = int(65535 / w)
+	default: // three or four byte prefix
+		c.MaxLen = pick[uint64](t, "maxlen", 1<<24-1, 1<<24, 1<<32-1)
+		c.Count = pick(t, "count", 100000, 150000, 262144, 300000, 524288)
+		if uint64(c.Count)*w > c.MaxLen {
+			c.Count = int(c.MaxLen / w)
+		}
+	}
+	c.Count -= pick(t, "countd", 0, 0, 1, 7)
+	return c
+}
+
+func manyElem(k string) *Desc {
+	switch k {
+	case "u16":
+		return &Desc{K: KU16}
+	case "u24":
+		return &Desc{K: KU24}
+	case "u32":
+		return &Desc{K: KU32}
+	case "u64":
+		return &Desc{K: KU64}
+	case "a2":
+		return &Desc{K: KArray, N: 2}
+	case "a3":
+		return &Desc{K: KArray, N: 3}
+	}
+	return &Desc{K: KArray, N: 8}
+}
+
 func genBig(t *rapid.T) BigCase {
+	if rapid.IntRange(0, 2).Draw(t, "many") == 0 {
+		return genMany(t)
+	}
 	c := BigCase{
 		Form:   pick(t, "form", "bytes", "bytes", "wrapped"),
 		MaxLen: pick[uint64](t, "maxlen", bigEdge-1, bigEdge, bigEdge+4096, 1<<32-1, 1<<32, 1<<40, 1<<56, 1<<64-1),
@@ -46,6 +92,10 @@ func genBig(t *rapid.T) BigCase {
 }
 
 func (c *BigCase) expand() (Desc, Val) {
+	if c.Form == "many" {
+		e := manyElem(c.Elem)
+		c.Len = c.Count * int(e.minWidth())
+	}
 	content := make(Hex, c.Len)
 	chunk := c.Chunk
 	if len(chunk) == 0 {
@@ -57,6 +107,19 @@ func (c *BigCase) expand() (Desc, Val) {
 	var vd Desc
 	var vv Val
 	switch c.Form {
+	case "many":
+		e := manyElem(c.Elem)
+		w := int(e.minWidth())
+		vd = Desc{K: KVec, Min: c.MinLen, Max: c.MaxLen, Elem: e}
+		vv.L = make([]Val, c.Count)
+		for i := range vv.L {
+			b := content[i*w : (i+1)*w]
+			if e.K == KArray {
+				vv.L[i] = Val{B: b}
+			} else {
+				vv.L[i] = Val{U: getUint(b)}
+			}
+		}
 	case "wrapped":
 		// outer length = (4 + Len) + (4 + 3): both the outer vector and its first element pass 2^24
 		inner := Desc{K: KStruct, Fields: []Field{{D: Desc{K: KBytes, Min: 0, Max: 1<<32 - 1}}}}
@@ -82,7 +145,7 @@ func (c *BigCase) expand() (Desc, Val) {
 }
 
 func checkBig(t *testing.T, c BigCase) (v harness.Verdict) {
-	if c.Len < 0 || c.Len > bigEdge+1<<20 || c.MaxLen == 0 || c.MinLen > c.MaxLen {
+	if c.Len < 0 || c.Len > bigEdge+1<<20 || c.MaxLen == 0 || c.MinLen > c.MaxLen || c.Count < 0 || c.Count > 1<<21 {
 		v.Discard = true
 		return v
 	}
@@ -92,6 +155,13 @@ func checkBig(t *testing.T, c BigCase) (v harness.Verdict) {
 	tr := &Trial{Kind: "value", Note: "big", V: &val}
 	ck.value(tr, 0)
 	switch {
+	case c.Form == "many":
+		ck.class("many:" + c.Elem)
+		if c.Count > 65535 {
+			ck.class("many:>65535-elements")
+		} else {
+			ck.class("many:2-byte-prefix-full")
+		}
 	case c.Len < bigEdge:
 		ck.class("len<2^24")
 	case c.Len == bigEdge:
@@ -111,6 +181,6 @@ func checkBig(t *testing.T, c BigCase) (v harness.Verdict) {
 
 var Big = harness.Define(harness.Opts{
 	Name:  "big",
-	Rule:  "struct{[uint8;] V; [uint16]} with V = []byte or []struct{[]byte `maxlen:4294967295`} (one big element, one small), maxlen in {2^24-1, 2^24, 2^24+4096, 2^32-1, 2^32, 2^40, 2^56, 2^64-1}, minlen in {0, 1, 2^24-4096, 2^24}, and one value whose vector holds 2^24-12 .. 2^24+4096 bytes (valid or out of bounds depending on the tag); judged like every value trial (Marshal == reference, refusal of out-of-bounds lengths, round trip, re-encoding, allocation). Every case is non-trivial",
-	Quick: 12, Thorough: 12, MaxSample: 400,
+	Rule:  "struct{[uint8;] V; [uint16]} with V = []byte or []struct{[]byte `maxlen:4294967295`} (one big element, one small), maxlen in {2^24-1, 2^24, 2^24+4096, 2^32-1, 2^32, 2^40, 2^56, 2^64-1}, minlen in {0, 1, 2^24-4096, 2^24}, and one value whose vector holds 2^24-12 .. 2^24+4096 bytes (valid or out of bounds depending on the tag); judged like every value trial (Marshal == reference, refusal of out-of-bounds lengths, round trip, re-encoding, allocation); one case in three instead carries a LONG vector of small elements (uint16/24/32/64 or [2|3|8]byte; a full 2-byte prefix, or 100000..524288 elements under a 3/4-byte prefix) so that a per-element cost that grows with the length of the vector (cumulative TotalAlloc) breaks the allocation bound. Every case is non-trivial",
+	Quick: 15, Thorough: 15, MaxSample: 400,
 }, genBig, checkBig)
